@@ -53,10 +53,11 @@ pub fn describe(s: &Schema, all: &[Schema]) -> String {
         Some(Enc::Map) => "#[cbor(map)] ",
     };
     match &s.kind {
-        Kind::Struct(st) => format!("T{}: {}{}{}struct {:?} {{ {} }}", s.id, enc(&st.enc), st.tag.map(|t| format!("#[tag({})] ", t)).unwrap_or_default(), if st.transparent { "#[transparent] " } else { "" }, st.shape, fields(&st.fields, all)),
+        Kind::Struct(st) => format!("T{} (attribute style {}): {}{}{}struct {:?} {{ {} }}", s.id, s.id % 3, enc(&st.enc), st.tag.map(|t| format!("#[tag({})] ", t)).unwrap_or_default(), if st.transparent { "#[transparent] " } else { "" }, st.shape, fields(&st.fields, all)),
         Kind::Enum(e) => format!(
-            "T{}: {}{}{}enum {{ {} }}",
+            "T{} (attribute style {}): {}{}{}enum {{ {} }}",
             s.id,
+            s.id % 3,
             enc(&e.enc),
             e.tag.map(|t| format!("#[tag({})] ", t)).unwrap_or_default(),
             if e.index_only { "#[index_only] " } else { "" },
